@@ -54,6 +54,12 @@ Emit(m) == /\ ph[m] = "idle" /\ ph' = [ph EXCEPT ![m] = "emitted"]
 HStart(m) == /\ ph[m] = "emitted" /\ ph' = [ph EXCEPT ![m] = "handling"]
              /\ UNCHANGED <<settle, res, pubres, calls>>
 
+\* The subscription was cancelled (Handler.Stop, Close) before the router took the message out of it: the
+\* decorator's pump gives it up, the chain is not invoked and the message stays unsettled -- C02 speaks of
+\* messages the router TAKES.  (What is excluded: a settlement without the chain having been invoked.)
+Untaken(m) == /\ ph[m] = "emitted" /\ settle[m] = "none" /\ ph' = [ph EXCEPT ![m] = "idle"]
+              /\ UNCHANGED <<settle, res, pubres, calls>>
+
 \* the handler settles the message itself
 HSelf(m, k) == /\ ph[m] = "handling" /\ k \in {"ack", "nack"}
                /\ settle' = [settle EXCEPT ![m] = FirstWins(@, k)]
@@ -101,7 +107,7 @@ Settle(m) == /\ ph[m] = "tosettle"
              /\ UNCHANGED <<res, pubres, calls>>
 
 RStep == \E m \in Msgs :
-           \/ Emit(m) \/ HStart(m) \/ Settle(m)
+           \/ Emit(m) \/ HStart(m) \/ Settle(m) \/ Untaken(m)
            \/ \E k \in {"ack", "nack"} : HSelf(m, k)
            \/ \E r \in Results : HEnd(m, r)
            \/ PCall(m, res[m].outs, settle[m])
